@@ -17,8 +17,10 @@ where the Go code has no guard the model returns `crash site`; where the Go code
 are always fine the model still carries the check (`inputSlice`, `paramsSlice`, `nameSlice`) and
 Proofs/C05TypeStr.lean proves those sites unreachable.
 
-`fx : Bool` selects the code as it is (`false`) or the code with props/C05.fix-1.diff applied
-(`true`: every unguarded access guarded).  Model/TypeStrFixed.lean instantiates `fx := true`.
+The model describes the code AFTER the repairs of KF-C05-1..3 (parseParamNodes checks for the end of
+the input before each of its three reads; parse / asTypeInfo check the parameter count before
+`params[count-1]`, `params[0]`, `params[1]` and skip an unnamed ColumnToCollectionType parameter) and of
+KF-C05-4 (apacheToCassandraType translates each class name where it stands).
 
 TERMINATION.  The Go code terminates on every input (every loop iteration / recursive call consumes
 at least one input byte); the model uses fuel only to stay structurally recursive (kernel
@@ -154,37 +156,19 @@ def typeNameTable : List (Nat × Str) := [
   (14, [118, 97, 114, 105, 110, 116]) /- varint -/,
   (49, [116, 117, 112, 108, 101]) /- tuple -/]
 
-/-- crash sites. The first group are the places where the unchanged code panics (known findings);
-the second group are index/slice expressions whose bounds the proofs show always hold. -/
+/-- crash sites: the index/slice expressions that carry no guard of their own in the Go code (the
+proofs show their bounds always hold). The accesses `t.input[t.index]`, `ast.params[count-1]`,
+`class.params[0]`, `class.params[1]`, `*param.name` are guarded in the Go code (an explicit check
+right before each of them), so the model has a `fail` / custom-type branch there and no site. -/
 inductive Site
-  | paramsEof          -- parseParamNodes: `t.input[t.index]` with index == len(input) (3 places)
-  | compositeNoParams  -- parse: `ast.params[count-1]` with count == 0
-  | collectionNoName   -- parse: `*param.name` with a nil name
-  | reversedNoParams   -- parse: `class.params[0]` of a ReversedType without parameters
-  | listNoParams       -- asTypeInfo: `class.params[0]` (ListType)
-  | setNoParams        -- asTypeInfo: `class.params[0]` (SetType)
-  | mapFewParams       -- asTypeInfo: `class.params[0]` / `class.params[1]` (MapType)
   | inputSlice         -- parseClassNode: `t.input[startIndex:endIndex]`
   | paramsSlice        -- parse: `ast.params[:count]`
   | nameSlice          -- getCassandraType: `name[:len(name)-1]`
   | fuel               -- model artefact
 deriving DecidableEq, Repr
 
-/-- the sites at which the UNCHANGED code is known to panic -/
-def Site.known : Site → Bool
-  | .paramsEof | .compositeNoParams | .collectionNoName | .reversedNoParams
-  | .listNoParams | .setNoParams | .mapFewParams => true
-  | _ => false
-
 /-- `<Go function>:<panic kind>` as printed by the harness (c05util.Guard) -/
 def Site.label : Site → String
-  | .paramsEof => "parseParamNodes:index"
-  | .compositeNoParams => "parse:index"
-  | .collectionNoName => "parse:nil"
-  | .reversedNoParams => "parse:index"
-  | .listNoParams => "asTypeInfo:index"
-  | .setNoParams => "asTypeInfo:index"
-  | .mapFewParams => "asTypeInfo:index"
   | .inputSlice => "parseClassNode:slice"
   | .paramsSlice => "parse:slice"
   | .nameSlice => "getCassandraType:slice"
@@ -239,7 +223,7 @@ abbrev Params := List (Option Str × Node)
 
 mutual
 /-- parseClassNode (with parseParamNodes' prologue inlined) -/
-def parseClass (fx : Bool) : Nat → Str → Out (Node × Str)
+def parseClass : Nat → Str → Out (Node × Str)
   | 0, _ => .crash .fuel
   | f+1, s =>
     let s0 := skipWs s
@@ -252,33 +236,35 @@ def parseClass (fx : Bool) : Nat → Str → Out (Node × Str)
       if c != 40 then
         (if s1.length ≤ s0.length then .ok (.mk p.1 [] (s0.take (s0.length - s1.length)), s1) else .crash .inputSlice)
       else
-        match paramLoop fx f (skipWs r) [] with
+        match paramLoop f (skipWs r) [] with
         | .ok (params, s2) =>
           if s2.length ≤ s0.length then .ok (.mk p.1 params (s0.take (s0.length - s2.length)), s2) else .crash .inputSlice
         | .fail => .fail
         | .crash x => .crash x
-/-- the `for t.input[t.index] != ')'` loop of parseParamNodes; `acc` is `params` reversed -/
-def paramLoop (fx : Bool) : Nat → Str → Params → Out (Params × Str)
+/-- the parameter loop of parseParamNodes (`for { if t.index == len(t.input) { return nil, false }; if
+t.input[t.index] == ')' { break } … }`); `acc` is `params` reversed. The three `[] => .fail` arms are the
+three end-of-input checks. -/
+def paramLoop : Nat → Str → Params → Out (Params × Str)
   | 0, _, _ => .crash .fuel
   | f+1, s, acc =>
     match s with
-    | [] => if fx then .fail else .crash .paramsEof
+    | [] => .fail
     | c :: r =>
       if c == 41 then .ok (acc.reverse, r) else
       let p := takeIdent s
       if p.1.isEmpty then .fail else
       match skipWs p.2 with
-      | [] => if fx then .fail else .crash .paramsEof
+      | [] => .fail
       | c2 :: r2 =>
         let hasName := c2 == 58
         let s3 := if hasName then skipWs r2 else s
-        match parseClass fx f s3 with
+        match parseClass f s3 with
         | .ok (node, s4) =>
           (match skipWs s4 with
-           | [] => if fx then .fail else .crash .paramsEof
+           | [] => .fail
            | c5 :: r5 =>
              let s6 := if c5 == 44 then skipWs r5 else c5 :: r5
-             paramLoop fx f s6 ((if hasName then some p.1 else none, node) :: acc))
+             paramLoop f s6 ((if hasName then some p.1 else none, node) :: acc))
         | .fail => .fail
         | .crash x => .crash x
 end
@@ -296,48 +282,44 @@ def apacheType (cls : Str) : Nat := (lookup apacheTable (trimPrefix kAPACHE cls)
 /-- getCassandraBaseType -/
 def baseType (name : Str) : Nat := (lookup baseTable name).getD 0
 
-/-- typeParserClassNode.asTypeInfo -/
-def asTypeInfo (fx : Bool) : Node → Out Ty
+/-- typeParserClassNode.asTypeInfo: a ListType / SetType needs one parameter, a MapType two
+(`&& len(class.params) >= 1|2`); without them the class falls through to the simple/custom tail, where a
+collection id is turned into TypeCustom -/
+def asTypeInfo : Node → Out Ty
   | .mk name params input =>
     if kLISTT.isPrefixOf name then
       match params with
-      | [] => if fx then .ok (.custom input) else .crash .listNoParams
+      | [] => .ok (.custom input)
       | (_, c) :: _ =>
-        match asTypeInfo fx c with
+        match asTypeInfo c with
         | .ok e => .ok (.list e)
         | .fail => .fail
         | .crash x => .crash x
     else if kSETT.isPrefixOf name then
       match params with
-      | [] => if fx then .ok (.custom input) else .crash .setNoParams
+      | [] => .ok (.custom input)
       | (_, c) :: _ =>
-        match asTypeInfo fx c with
+        match asTypeInfo c with
         | .ok e => .ok (.set e)
         | .fail => .fail
         | .crash x => .crash x
     else if kMAPT.isPrefixOf name then
       match params with
       | (_, k) :: (_, v) :: _ =>
-        match asTypeInfo fx k with
+        match asTypeInfo k with
         | .ok kt =>
-          (match asTypeInfo fx v with
+          (match asTypeInfo v with
            | .ok vt => .ok (.map kt vt)
            | .fail => .fail
            | .crash x => .crash x)
         | .fail => .fail
         | .crash x => .crash x
-      | [(_, k)] =>
-        if fx then .ok (.custom input) else
-        -- Go evaluates `class.params[0].class.asTypeInfo()` first, then indexes params[1]
-        (match asTypeInfo fx k with
-         | .ok _ => .crash .mapFewParams
-         | .fail => .fail
-         | .crash x => .crash x)
-      | [] => if fx then .ok (.custom input) else .crash .mapFewParams
+      | [_] => .ok (.custom input)
+      | [] => .ok (.custom input)
     else
       let t := apacheType name
       if t == 0 then .ok (.custom input)
-      else if fx && (t == 0x20 || t == 0x21 || t == 0x22) then .ok (.custom input)
+      else if t == 0x20 || t == 0x21 || t == 0x22 then .ok (.custom input)
       else .ok (.native t)
 
 /-- result of parseType: isComposite, (reversed, type) per component, collections sorted by name -/
@@ -376,47 +358,45 @@ def insertColl (k : Str) (v : Ty) : List (Str × Ty) → List (Str × Ty)
     else (k', v') :: insertColl k v r
 
 /-- the `for _, param := range last.class.params` loop of parse -/
-def collLoop (fx : Bool) : Params → List (Str × Ty) → Out (List (Str × Ty))
+def collLoop : Params → List (Str × Ty) → Out (List (Str × Ty))
   | [], acc => .ok acc
   | (name, cls) :: r, acc =>
     match name with
-    | none => if fx then collLoop fx r acc else .crash .collectionNoName
+    | none => collLoop r acc   -- `if param.name == nil { continue }`
     | some nm =>
       let key := (hexDecode nm).getD nm
-      match asTypeInfo fx cls with
-      | .ok t => collLoop fx r (insertColl key t acc)
+      match asTypeInfo cls with
+      | .ok t => collLoop r (insertColl key t acc)
       | .fail => .fail
       | .crash x => .crash x
 
-/-- one component: `reversed := HasPrefix(class.name, REVERSED_TYPE); if reversed { class = class.params[0].class }` -/
-def component (fx : Bool) (cls : Node) : Out (Bool × Ty) :=
+/-- one component: `reversed := HasPrefix(class.name, REVERSED_TYPE) && len(class.params) > 0; if reversed { class = class.params[0].class }` -/
+def component (cls : Node) : Out (Bool × Ty) :=
   if kREVERSED.isPrefixOf cls.name then
     match cls.params with
     | [] =>
-      if fx then
-        (match asTypeInfo fx cls with
-         | .ok t => .ok (false, t)
-         | .fail => .fail
-         | .crash x => .crash x)
-      else .crash .reversedNoParams
+      (match asTypeInfo cls with
+       | .ok t => .ok (false, t)
+       | .fail => .fail
+       | .crash x => .crash x)
     | (_, c) :: _ =>
-      match asTypeInfo fx c with
+      match asTypeInfo c with
       | .ok t => .ok (true, t)
       | .fail => .fail
       | .crash x => .crash x
   else
-    match asTypeInfo fx cls with
+    match asTypeInfo cls with
     | .ok t => .ok (false, t)
     | .fail => .fail
     | .crash x => .crash x
 
 /-- the `for i, param := range ast.params[:count]` loop of parse -/
-def typesLoop (fx : Bool) : Params → Out (List (Bool × Ty))
+def typesLoop : Params → Out (List (Bool × Ty))
   | [] => .ok []
   | (_, cls) :: r =>
-    match component fx cls with
+    match component cls with
     | .ok c =>
-      (match typesLoop fx r with
+      (match typesLoop r with
        | .ok cs => .ok (c :: cs)
        | .fail => .fail
        | .crash x => .crash x)
@@ -427,18 +407,18 @@ def customResult (input : Str) : PResult :=
   { isComposite := false, types := [(false, .custom input)], collections := [] }
 
 /-- typeParser.parse on an already parsed AST -/
-def interpret (fx : Bool) (input : Str) (ast : Node) : Out PResult :=
+def interpret (input : Str) (ast : Node) : Out PResult :=
   if kCOMPOSITE.isPrefixOf ast.name then
     let params := ast.params
     match params.getLast? with
-    | none => if fx then .ok (customResult input) else .crash .compositeNoParams
+    | none => .ok (customResult input)   -- `if count == 0`: treated as a custom type
     | some (_, lastCls) =>
       let isColl := kCOLLECTION.isPrefixOf lastCls.name
       let count := if isColl then params.length - 1 else params.length
-      match (if isColl then collLoop fx lastCls.params [] else .ok []) with
+      match (if isColl then collLoop lastCls.params [] else .ok []) with
       | .ok colls =>
         if count ≤ params.length then
-          (match typesLoop fx (params.take count) with
+          (match typesLoop (params.take count) with
            | .ok ts => .ok { isComposite := true, types := ts, collections := colls }
            | .fail => .fail
            | .crash x => .crash x)
@@ -446,17 +426,17 @@ def interpret (fx : Bool) (input : Str) (ast : Node) : Out PResult :=
       | .fail => .fail
       | .crash x => .crash x
   else
-    match component fx ast with
+    match component ast with
     | .ok c => .ok { isComposite := false, types := [c], collections := [] }
     | .fail => .fail
     | .crash x => .crash x
 
 /-- metadata.go parseType -/
-def parseType (fx : Bool) (input : Str) : Out PResult :=
-  match parseClass fx (input.length + 1) input with
+def parseType (input : Str) : Out PResult :=
+  match parseClass (input.length + 1) input with
   | .fail => .ok (customResult input)
   | .crash x => .crash x
-  | .ok (ast, _) => interpret fx input ast
+  | .ok (ast, _) => interpret input ast
 
 /-! ### helpers.go -/
 
@@ -558,20 +538,13 @@ def replaceAll (old new : Str) : Nat → Str → Str
 
 def replace (s old new : Str) : Str := if old.isEmpty then s else replaceAll old new (s.length + 1) s
 
-/-- strings.FieldsFunc(t, r == '<' || r == '>' || r == ',') ; `cur` reversed -/
-def fields : Str → Str → List Str
-  | [], cur => if cur.isEmpty then [] else [cur.reverse]
-  | c :: r, cur =>
-    if c == 60 || c == 62 || c == 44 then
-      (if cur.isEmpty then fields r [] else cur.reverse :: fields r [])
-    else fields r (c :: cur)
-
 def typeName (t : Nat) : Str :=
   match typeNameTable.find? (fun p => p.1 == t) with
   | some p => p.2
   | none => []
 
-/-- props/C05.fix-8.diff: each class name is translated where it stands; `cur` reversed -/
+/-- the translation loop of apacheToCassandraType: each class name (maximal run without `<`, `>`, `,`) is
+replaced by its CQL name where it stands; `cur` reversed -/
 def translateFields : Str → Str → Str
   | [], cur => if cur.isEmpty then [] else typeName (apacheType cur.reverse)
   | c :: r, cur =>
@@ -579,22 +552,17 @@ def translateFields : Str → Str → Str
       (if cur.isEmpty then [] else typeName (apacheType cur.reverse)) ++ c :: translateFields r []
     else translateFields r (c :: cur)
 
-/-- helpers.go apacheToCassandraType (`fx = true`: with props/C05.fix-8.diff) -/
-def apacheToCassandraTypeFx (fx : Bool) (t : Str) : Str :=
+/-- helpers.go apacheToCassandraType -/
+def apacheToCassandraType (t : Str) : Str :=
   let t1 := replace t kAPACHE []
   let t2 := replace t1 [40] [60]
   let t3 := replace t2 [41] [62]
-  let t4 := if fx then translateFields t3 []
-            else (fields t3 []).foldl (fun acc typ => replace acc typ (typeName (apacheType typ))) t3
+  let t4 := translateFields t3 []
   replace t4 [44] kcommaSp
 
-def apacheToCassandraType (t : Str) : Str := apacheToCassandraTypeFx false t
-
 /-- metadata.go getTypeInfo -/
-def getTypeInfoFx (fx : Bool) (t : Str) : Out Ty :=
-  if kAPACHE.isPrefixOf t then getCassandraType (apacheToCassandraTypeFx fx t) else getCassandraType t
-
-def getTypeInfo (t : Str) : Out Ty := getTypeInfoFx false t
+def getTypeInfo (t : Str) : Out Ty :=
+  if kAPACHE.isPrefixOf t then getCassandraType (apacheToCassandraType t) else getCassandraType t
 
 /-! ### canonical rendering (driver) -/
 
